@@ -53,16 +53,21 @@ class EncoderModel:
         # the counter is the member the public getSequenceCounter() returns (however it is advanced)
         gsc = fb.fn_opt(ENC + "::getSequenceCounter")
         inc = []
+        ints = [f["qname"] for f in F if f["t"].get("k") == "int"]
         if gsc is not None:
             rets = gsc.returns()
-            if len(rets) == 1 and isinstance(rets[0].get("e"), dict) and strip_all_casts(rets[0]["e"]).get("field") in u16:
+            # (whatever integer type the member has: its width is C09-R1's question, not a reason to lose the role)
+            if len(rets) == 1 and isinstance(rets[0].get("e"), dict) and strip_all_casts(rets[0]["e"]).get("field") in ints:
                 inc = [strip_all_casts(rets[0]["e"])["field"]]
         if not inc:
             inc = [q for q in u16 if any(k in ("pre++", "post++", "cassign") for _, k, _ in self.writes.get(q, []))]
-        if len(u16) != 2 or len(inc) != 1:
-            raise Broken("Encoder: cannot bind device id / sequence counter among 16-bit members %s" % u16)
+        if len(inc) != 1:
+            raise Broken("Encoder: cannot bind the sequence counter (16-bit members %s)" % u16)
         self.counter = inc[0]
-        self.deviceId = [q for q in u16 if q != self.counter][0]
+        dev = [q for q in u16 if q != self.counter]
+        if len(dev) != 1:
+            dev = [returned_by("getDeviceId", "device id")]
+        self.deviceId = dev[0]
         szt = [f["qname"] for f in F if f["t"]["s"] == "unsigned long"]
         if len(szt) != 3:
             raise Broken("Encoder: expected three size_t members (min, max, bytes left), found %d" % len(szt))
@@ -249,11 +254,14 @@ def rule_state_reset(res, rid_class, rid_reset, m):
 
 # ---------------------------------------------------------------------------- C09
 
-def rule_counter_writers(res, rid, m):
+def rule_counter_writers(res, rid, m, reported=True):
     ws = m.writes.get(m.counter, [])
     f16 = m.fb.field(ENC, m.short(m.counter))
-    res.check(f16["t"].get("bits") == 16 and not f16["t"].get("sg"), rid, "counter:type", f16["loc"], "sequence counter is uint16_t (wraps modulo 65536 by type)",
-              "sequence counter has type %s" % f16["t"]["s"])
+    if reported:
+        # what getSequenceCounter() reports is the counter of the last emitted frame only if the member itself wraps where the 16-bit wire field does
+        # (the frames stay consecutive modulo 2^16 either way: the header setter narrows — so this is C09's clause, not C01's or C10's)
+        res.check(f16["t"].get("bits") == 16 and not f16["t"].get("sg"), rid, "counter:type", f16["loc"], "sequence counter is uint16_t (wraps modulo 65536 by type)",
+                  "sequence counter has type %s: after 65536 frames the reported counter no longer equals the counter of the last emitted frame" % f16["t"]["s"])
     for f, kind, n in ws:
         if kind == "pre++":
             okk = f is m.opener
@@ -906,6 +914,15 @@ def rule_batch_order(res, rid, m):
             okinc = True
         res.check(okinc and len(puts) == 1 and len(inloop) == 1, rid, "encode(%s):loop" % tag, ls.get("loc"),
                   "one forward pass, one putPacket per element", "encode does not call putPacket exactly once per element in forward order")
+        # ... for every element: nothing inside the loop decides whether an element is put (a filter — skip packets that look invalid, stop at
+        # the first empty one — drops their payload bytes from the output)
+        if len(inloop) == 1:
+            body = ls.get("body") or {}
+            skips = [x for x in walk(body) if x.get("k") in ("if", "cond", "continue", "break", "return", "switch", "while", "for", "do")
+                     and not any(a.get("k") == "lambda" for a in e.ancestors(x))]
+            res.check(not skips, rid, "encode(%s):every-element" % tag, (skips[0] if skips else ls).get("loc"), "every element of the batch is put, unconditionally",
+                      "the batch loop puts an element only under a condition (`%s` at %s): the packets it skips never reach a frame" %
+                      (skips[0].get("k") if skips else "", (skips[0].get("loc") or "") if skips else ""))
         # what the loop walks is the caller's range itself, in its own order
         if len(e.params) >= 2 and len(puts) == 1:
             p0, p1 = e.params[0]["decl"], e.params[1]["decl"]
